@@ -208,11 +208,35 @@ func runC06(c *explore.Ctx) {
 func runC09(c *explore.Ctx) {
 	var spaces []plSpace
 	if c.Thorough() {
-		spaces = []plSpace{{"E", "ROLL", 5}, {"E", "ROLL+SW", 5}, {"E", "BIGC", 5}, {"E", "BIGC+SW", 4}, {"S2", "ROLL", 5}, {"S4", "ROLL", 4}, {"S3", "ROLL", 3}, {"CH", "BIGC", 3}, {"SP", "BIGC", 3}, {"S2!unclean", "ROLL", 3}, {"CH!unclean", "BIGC", 2}, {"T!unclean", "BIGC", 2}}
+		spaces = []plSpace{{"E", "ROLL", 5}, {"E", "ROLL+SW", 5}, {"E", "BIGC", 5}, {"E", "BIGC+SW", 4}, {"S2", "ROLL", 5}, {"S4", "ROLL", 4}, {"S3", "ROLL", 3}, {"CH", "BIGC", 3}, {"SP", "BIGC", 3}, {"S2!unclean", "ROLL", 3}, {"CH!unclean", "BIGC", 2}, {"T!unclean", "BIGC", 2}, {"T!torn", "BIGC", 3}, {"S2!torn", "ROLL", 3}}
 	} else {
-		spaces = []plSpace{{"E", "ROLL", 4}, {"E", "ROLL+SW", 3}, {"E", "BIGC", 4}, {"E", "BIGC+SW", 3}, {"S2", "ROLL", 4}, {"S4", "ROLL", 3}, {"SP", "BIGC", 2}, {"CH", "BIGC", 2}, {"S2!unclean", "ROLL", 2}, {"CH!unclean", "BIGC", 1}}
+		spaces = []plSpace{{"E", "ROLL", 4}, {"E", "ROLL+SW", 3}, {"E", "BIGC", 4}, {"E", "BIGC+SW", 3}, {"S2", "ROLL", 4}, {"S4", "ROLL", 3}, {"SP", "BIGC", 2}, {"CH", "BIGC", 2}, {"S2!unclean", "ROLL", 2}, {"CH!unclean", "BIGC", 1}, {"T!torn", "BIGC", 2}, {"S2!torn", "ROLL", 2}}
 	}
 	runPowerSpaces(c, spaces, true)
+	if c.Expired() || c.NViolations() > 0 {
+		return
+	}
+	c09FaultyClose(c)
+}
+
+// uncleanVariant returns the base with its (durable) image left unclean: the history's first Open is a recovery.
+// "<base>!torn": additionally the newest segment ends in a whole record with a bad checksum (exactly the size of
+// one harness record), which the recovery truncates - the next Put brings the file back to its previous length.
+func uncleanVariant(base *explore.Base, name string) *explore.Base {
+	b2 := *base
+	b2.Image = base.Image.Clone()
+	b2.Image.SetBytes(explore.DBPath+"/lock", nil)
+	if strings.HasSuffix(name, "!torn") {
+		d := refmodel.ReplayDir(explore.SegmentFiles(b2.Image))
+		if len(d.Segments) > 0 {
+			seg := explore.DBPath + "/" + d.Segments[len(d.Segments)-1].Name
+			rec := refmodel.EncodeRecord(explore.ForgeKey(0, 'Z', 0, 0x7a7a7a7a), []byte("tail"), false)
+			rec[len(rec)-1] ^= 0x55
+			b2.Image.SetBytes(seg, append(append([]byte(nil), b2.Image.Bytes(seg)...), rec...))
+		}
+	}
+	b2.Name = name
+	return &b2
 }
 
 // runPowerSpaces: afterCloseOnly restricts the failure instants to those from the return of a Close
@@ -222,18 +246,13 @@ func runPowerSpaces(c *explore.Ctx, spaces []plSpace, afterCloseOnly bool) {
 		if c.Expired() || c.NViolations() > 0 {
 			return
 		}
-		bname := strings.TrimSuffix(sp.Base, "!unclean")
+		bname := strings.TrimSuffix(strings.TrimSuffix(sp.Base, "!unclean"), "!torn")
 		base, err := explore.GetBase(bname, cfgPL(sp.Cfg), 0)
 		if err != nil {
 			c.HarnessError("%v", err)
 		}
 		if bname != sp.Base {
-			// the same (durable) image left unclean: the history's first Open is a recovery
-			b2 := *base
-			b2.Image = base.Image.Clone()
-			b2.Image.SetBytes(explore.DBPath+"/lock", nil)
-			b2.Name = sp.Base
-			base = &b2
+			base = uncleanVariant(base, sp.Base)
 		}
 		explore.PinSeed(0)
 		memo := recMemo{}
@@ -388,16 +407,12 @@ func replayPower(rep map[string]interface{}) (string, error) {
 		return "", err
 	}
 	sp := plSpace{Base: fmt.Sprint(rep["base"]), Cfg: fmt.Sprint(rep["cfg"])}
-	base, err := explore.GetBase(strings.TrimSuffix(sp.Base, "!unclean"), cfgPL(sp.Cfg), 0)
+	base, err := explore.GetBase(strings.TrimSuffix(strings.TrimSuffix(sp.Base, "!unclean"), "!torn"), cfgPL(sp.Cfg), 0)
 	if err != nil {
 		return "", err
 	}
-	if strings.HasSuffix(sp.Base, "!unclean") {
-		b2 := *base
-		b2.Image = base.Image.Clone()
-		b2.Image.SetBytes(explore.DBPath+"/lock", nil)
-		b2.Name = sp.Base
-		base = &b2
+	if strings.Contains(sp.Base, "!") {
+		base = uncleanVariant(base, sp.Base)
 	}
 	explore.PinSeed(0)
 	h := runPLHistory(base, word)
@@ -593,6 +608,102 @@ func c06ConcCheck(c *explore.Ctx, base *explore.Base, sc *explore.Scenario, memo
 			c.Cap(fmt.Sprintf("more than %d power-loss images at one position of an interleaved execution: deviation-bounded enumeration used there", opts.MaxPerPos))
 		}
 		return cls, res
+	}
+}
+
+// c09FaultyClose: Close with a transient I/O error injected at each of its mutating file-system calls (that
+// includes every fsync). Whether Close then returns an error or nil, a power failure at any later instant must
+// leave a directory that opens with exactly the closed contents (a Close that reports success after a failed
+// fsync would have released the lock over volatile files).
+func c09FaultyClose(c *explore.Ctx) {
+	for _, bc := range [][2]string{{"S2", "ROLL"}, {"CH", "BIGC"}, {"S4", "ROLL+SW"}} {
+		base, err := explore.GetBase(bc[0], cfgPL(bc[1]), 0)
+		if err != nil {
+			c.HarnessError("%v", err)
+		}
+		explore.PinSeed(0)
+		memo := recMemo{}
+		for pi, pre := range [][]explore.Op{{{Kind: explore.Put, Key: base.Alpha[0]}}, {{Kind: explore.Delete, Key: base.Alpha[0]}, {Kind: explore.Put, Key: base.Alpha[1]}}} {
+			if !c.Mine() {
+				continue
+			}
+			for n := 1; n < 200; n++ {
+				if c.Expired() || c.NViolations() > 0 {
+					return
+				}
+				s := base.NewSess()
+				s.FS.Record = true
+				if err := s.OpenDB(); err != nil {
+					c.HarnessError("Open: %v", err)
+				}
+				for _, o := range pre {
+					_ = s.Apply(o)
+				}
+				before := s.FS.Mutations()
+				from := len(s.FS.Log)
+				s.FS.FailAt = before + n
+				cerr := s.ProtectedClose()
+				s.FS.FailAt = 0
+				if s.FS.Mutations() < before+n {
+					break
+				}
+				c.Add("executions", 1)
+				c.Add("faulty_close_cases", 1)
+				log := s.FS.Log
+				opts := simfs.PowerLossOpts{ReduceUnread: true, Dir: explore.DBPath, LockName: "lock", SegmentExt: refmodel.SegmentExt, MaxPerPos: 1024}
+				bad := ""
+				// instants after Close returned (the process is gone; nothing more is written)
+				simfs.PowerLossImages(base.Image, log, len(log), len(log), opts, func(im simfs.Image) bool {
+					c.Add("images", 1)
+					rec, fresh := memo.get(im.FS, base, explore.RecoverOpts{})
+					if fresh {
+						c.Add("recoveries", 1)
+						c.Distinct("image", explore.Hash64("fc", bc[0], bc[1], im.FS.Hash()))
+					}
+					switch {
+					case rec.OpenErr != "":
+						bad = "Open failed: " + rec.OpenErr
+					case rec.Internal != "":
+						bad = "inconsistent: " + rec.Internal
+					case cerr == nil && !s.Model.Equal(rec.Contents):
+						bad = "Close returned nil but the contents differ from what was closed: " + s.Model.Diff(rec.Contents, s.KeyName)
+					case cerr != nil:
+						// Close failed: it promised nothing; the session's unsynced writes may or may not have survived
+						// (per key: the durable base value, or a value written in this session) - C06's oracle
+						a := allowedSet{base: base.Model, later: map[string]map[string]bool{}, durOp: -1}
+						if base.Cfg.SyncWrites {
+							a.base = s.Model // every write was a durability point
+						}
+						m := base.Model.Clone()
+						for _, o := range pre {
+							k := string(s.Keys[o.Key])
+							if a.later[k] == nil {
+								a.later[k] = map[string]bool{}
+							}
+							if o.Kind == explore.Delete {
+								a.later[k][absentMark] = true
+								delete(m, k)
+							} else {
+								a.later[k][s.Model[k]] = true
+							}
+						}
+						bad = a.check(rec.Contents, s.KeyName)
+					}
+					if bad != "" {
+						bad = fmt.Sprintf("surviving-prefix choice {%s}: %s", im.Desc, bad)
+						return false
+					}
+					return true
+				})
+				_ = from
+				if bad != "" {
+					c.Violation(explore.Violation{Key: fmt.Sprintf("faulty-close base=%s cfg=%s pre=%d fault@%d", bc[0], bc[1], pi, n),
+						What: fmt.Sprintf("base %s/%s, [%s] then Close with a transient I/O error at its mutating file-system call #%d (Close returned %v), then a power failure: %s", bc[0], bc[1], explore.WordString(pre), n, cerr, bad), Size: n,
+						Replay: map[string]interface{}{"kind": "faultyclose09", "base": bc[0], "cfg": bc[1], "pre": opsJSON(pre), "fault_at": n, "observed": bad}})
+					return
+				}
+			}
+		}
 	}
 }
 
